@@ -96,7 +96,7 @@ func uniformityTest(o *Obs, what string, counts map[string]int, cells []string, 
 	o.Ev("cells", len(cells))
 	// resolution actually reached: smallest relative bias of one cell this run would have flagged (z ~ 6.8)
 	res := 6.8 / math.Sqrt(exp)
-	o.AddSet("resolution", fmt.Sprintf("%s: %d cells, %d draws, detectable relative bias >= %.0f%%", what, len(cells), n, 100*res))
+	o.AddSet("list:resolution", fmt.Sprintf("%s: %d cells, %d draws, detectable relative bias >= %.0f%%", what, len(cells), n, 100*res))
 }
 
 // ---- in-process command execution ---------------------------------------------------------------
